@@ -1433,6 +1433,32 @@ def check_recompute_from_scratch(ck, R):
 
 
 # --------------------------------------------------------------------------------- C01.R4
+def _set_additions(fa, res):
+    """Every place where elements are added to the set held by parameter / local `res`: [(AST node of the addition, [element
+    expressions] or None when the elements cannot be listed)] - `res.add(x)`, `res.update([x, y])` / `res.update({x})`,
+    `res |= {x}` alike."""
+    out = []
+    for c in fa.calls():
+        if A.norm(A.call_recv(c)) != res:
+            continue
+        if A.call_attr(c) == "add" and len(c.args) == 1:
+            out.append((c, [c.args[0]]))
+        elif A.call_attr(c) == "update":
+            elts = []
+            for a_ in c.args:
+                if isinstance(a_, (ast.List, ast.Set, ast.Tuple)) and not any(isinstance(x, ast.Starred) for x in a_.elts):
+                    elts += a_.elts
+                else:
+                    elts = None
+                    break
+            out.append((c, elts))
+    for st in fa.stmts(ast.AugAssign):
+        if isinstance(st.target, ast.Name) and st.target.id == res and isinstance(st.op, ast.BitOr):
+            v = st.value
+            out.append((st, list(v.elts) if isinstance(v, (ast.Set, ast.List, ast.Tuple)) and not any(isinstance(x, ast.Starred) for x in v.elts) else None))
+    return out
+
+
 def _orderless(e):
     """`e` without the wrappers that only fix an order or make a copy (sorted / list / tuple / set / frozenset / reversed / iter
     of one collection): the same elements are iterated"""
@@ -1484,7 +1510,7 @@ def check_descent_complete(ck, R):
     # pruning of memento rules: only `self in result`.  Decided on PATH CONDITIONS: the rule joins the set, and
     # every dependency is visited, exactly when the rule was not collected before (guard clause, nesting and
     # merged tests alike); the visiting loops are never left early
-    adds = [c for c in m.calls("add") if A.norm(A.call_recv(c)) == "result" and [A.norm(a) for a in c.args] == ["self"]]
+    adds = [c for (c, el) in _set_additions(m, "result") if el is not None and [A.norm(a) for a in el] == ["self"]]
     want_m = {("self in result", False)}
     okp = bool(adds) and all(_single_conj(m.conditions(c)) == want_m for c in adds + [c for (c, l, s_) in mv])
     okp = okp and not any(isinstance(x, (ast.Break, ast.Return, ast.Continue)) for (c, l, s_) in mv if l is not None
@@ -1496,7 +1522,7 @@ def check_descent_complete(ck, R):
     okn = len(nv) == 1 and nv[0][2] == {"list_dotted_names(self.src_fn)"}
     ck.ob(R, n.key(None, "dotted-names"), okn, "plain functions are descended through every dotted name of their source" if okn else
           "a plain-function rule no longer visits list_dotted_names(src_fn)", n.where())
-    nadds = [c for c in n.calls("add") if A.norm(A.call_recv(c)) == "result" and [A.norm(a) for a in c.args] == ["self"]]
+    nadds = [c for (c, el) in _set_additions(n, "result") if el is not None and [A.norm(a) for a in el] == ["self"]]
     seen_lits = set()
     okt = True
     for c in nadds + [c for (c, l, s_) in nv]:
@@ -1514,7 +1540,10 @@ def check_descent_complete(ck, R):
     okadd = bool(nadds)
     ck.ob(R, n.key(None, "adds-self"), okadd, "the plain-function rule joins the rule set" if okadd else "the plain-function rule no longer adds itself", n.where())
     g = FA(ck, CH + ".GlobalVariableHashRule.collect_transitive_dependencies")
-    okg = bool([c for c in g.calls("add") if [A.norm(a) for a in c.args] == ["self"]]) and not g.stmts(ast.If)
+    gres = g.fi.params[1] if len(g.fi.params) > 1 else "result"
+    gadds = [c for (c, el) in _set_additions(g, gres) if el is not None and "self" in [A.norm(a) for a in el]]
+    # on every path to the normal exit the rule has joined the set
+    okg = bool(gadds) and g.cfg.path(g.cfg.entry, g.cfg.exit, removed=set(g.nodes_all(gadds)), edge_ok=lambda s_, d_, l_: l_ != "exc") is None
     ck.ob(R, g.key(None, "adds-self"), okg, "variable rules always join the rule set" if okg else "a variable rule can be left out of the rule set", g.where())
     # the traversal's parameters other than the accumulator are read-only (mutating the shared
     # scope / blacklist makes the rule set depend on the visiting order of a set)
@@ -1608,14 +1637,39 @@ def check_descent_complete(ck, R):
                 return "<blacklist identity>"
         return A.norm(t_)
 
-    for x in rsa.cfg.nodes:
-        if x.kind == "test" and x.id in rsa.cfg.reachable_nodes():
-            for atom in (A.conj_atoms(x.ast) if not (isinstance(x.ast, ast.BoolOp) and isinstance(x.ast.op, ast.Or)) else A.test_atoms(x.ast)):
-                tests.append(classify(atom, x.id))
+    # decided on the PATH CLASSES of resolve_symbol: the literals of the branch tests taken on the way to the exit, result flags
+    # (`blacklisted = True ... if not blacklisted`) read as the condition that set them
+    rs_paths = _exit_paths(rsa)
+    ck.need(rs_paths is not None, "resolve_symbol: too many paths")
+    sites = _literal_sites(rsa)
+    for text in sorted({t for (_p, lits) in rs_paths for t in lits}):
+        (e_, at_) = sites.get(text, (_parse_lit(text), None))
+        if e_ is None:
+            tests.append(text)
+        elif at_ is None:
+            # a literal made up on the path: judged by its text alone
+            names = {x.id for x in ast.walk(e_) if isinstance(x, ast.Name)}
+            loops_bl = {x.ast.target.id for x in rsa.cfg.nodes if x.kind == "for" and isinstance(x.ast.target, ast.Name) and rsa.xnorm(x.ast.iter, x.id) == "blacklist"}
+            if isinstance(e_, ast.Compare) and len(e_.ops) == 1 and isinstance(e_.ops[0], ast.Is) and A.is_none(e_.comparators[0]) \
+                    and any(isinstance(x, ast.Call) and A.call_attr(x) == "try_resolve" for x in ast.walk(e_.left)):
+                tests.append("<try_resolve result> is not None")
+            elif isinstance(e_, ast.Compare) and len(e_.ops) == 1 and isinstance(e_.ops[0], ast.Is) and len(names) == 2 and names & loops_bl and names & params:
+                tests.append("<blacklist identity>")
+            else:
+                tests.append(text)
+        else:
+            tests.append(classify(e_, at_))
     okb = set(tests) <= {"<blacklist identity>", "<try_resolve result> is not None"}
+    # every strategy is asked: one loop, or one comprehension / generator, over HashRule.all_rules that calls try_resolve
     lp = [x for x in rsa.cfg.nodes if x.kind == "for" and any(rsa.enclosing(c, (ast.For, ast.AsyncFor)) is x.ast for c in rsa.calls("try_resolve"))]
+    scans = [(x.ast.iter, x.id) for x in lp]
+    for st_ in rsa.stmts():
+        for c_ in (A.walk_local(st_) if rsa.nodes(st_) and not isinstance(st_, (ast.If, ast.For, ast.While, ast.Try, ast.With)) else []):
+            if isinstance(c_, (ast.GeneratorExp, ast.ListComp)) and len(c_.generators) == 1 and any(isinstance(t, ast.Call) and A.call_attr(t) == "try_resolve" for t in ast.walk(c_)):
+                scans.append((c_.generators[0].iter, rsa.nodes(st_)[0]))
     others = [x for x in rsa.cfg.nodes if x.kind == "for" and x not in lp and rsa.xnorm(x.ast.iter, x.id) != "blacklist"]
-    okb = okb and len(lp) == 1 and rsa.xnorm(lp[0].ast.iter, lp[0].id) == "HashRule.all_rules" and not others and not rsa.stmts(ast.While)
+    from_strategy = any(r_.value is not None and rsa.nodes(r_) and "call:try_resolve" in rsa.df.deps(r_.value, rsa.nodes(r_)[0]) for r_ in rsa.returns())
+    okb = okb and len(scans) == 1 and rsa.xnorm(scans[0][0], scans[0][1]) == "HashRule.all_rules" and not others and not rsa.stmts(ast.While) and from_strategy
     ck.ob(R, rsa.key(None, "blacklist-by-identity"), okb, "symbols are excluded only by blacklist identity; all rule strategies are tried" if okb else
           "resolve_symbol excludes symbols by something other than blacklist identity, or does not try every strategy: %s" % tests, rsa.where())
     # rule strategies registered
@@ -1710,9 +1764,11 @@ def check_enforcement(ck, R):
     if valid is not None and rs:
         g = v.enclosing(rs[0], ast.If)
         dv = set()
-        for n in v.cfg.nodes:
-            if n.kind != "test":
-                continue
+        from types import SimpleNamespace as _NS
+        # wherever the membership of the callee in the valid set is asked (a branch test, or a condition held in a local)
+        sites = [_NS(ast=n.ast, id=n.id) for n in v.cfg.nodes if n.kind == "test"]
+        sites += [_NS(ast=st_.value, id=v.nodes(st_)[0]) for st_ in v.stmts((ast.Assign, ast.AnnAssign)) if getattr(st_, "value", None) is not None and v.nodes(st_)]
+        for n in sites:
             for x in ast.walk(n.ast):
                 if isinstance(x, ast.Compare) and len(x.ops) == 1 and isinstance(x.ops[0], (ast.In, ast.NotIn)) \
                         and v.xnorm(x.left, n.id) == "self.fn_reference().qualified_name":
@@ -2143,8 +2199,25 @@ def check_ordered_iteration(ck, R):
         m = base.methods.get(nm)
         ck.need(m is not None, "HashRule.%s not found" % nm)
         f2 = FA(ck, m)
-        at = {n.attr for r in f2.returns() for n in ast.walk(r.value) if isinstance(n, ast.Attribute)}
-        fields[nm] = at
+
+        def read_fields(fx, depth=3):
+            """the fields a method's result is computed from; an argument-less helper method of the class (a sort key) is read through"""
+            out_ = set()
+            for r in fx.returns():
+                if r.value is None:
+                    continue
+                for n in (_flow(fx, r.value, fx.nodes(r)[0]).values() if fx.nodes(r) else ast.walk(r.value)):
+                    if not isinstance(n, ast.Attribute):
+                        continue
+                    par = fx.pm.get(n)
+                    if isinstance(par, ast.Call) and par.func is n:
+                        if n.attr in base.methods and not par.args and not par.keywords and depth > 0:
+                            out_ |= read_fields(FA(ck, base.methods[n.attr]), depth - 1)
+                        continue
+                    out_.add(n.attr)
+            return out_
+
+        fields[nm] = read_fields(f2)
     srt = [c for c in fa.calls("sorted")] + [c for c in fa.calls("sort")]
     ident = fields["__eq__"]
     for c in srt:
@@ -2373,21 +2446,43 @@ def check_update_protocol(ck, R):
             return [x.target.id for x in c_.node.body if isinstance(x, ast.AnnAssign) and isinstance(x.target, ast.Name)]
         return None
 
-    stores = [s_ for s_ in fa.stmts(ast.Assign) if fa.nodes(s_) and any(isinstance(t, ast.Subscript) and fa.xnorm(t.value, fa.nodes(s_)[0]) == CACHE for t in s_.targets)]
-    ok_c = bool(stores)
-    for s_ in stores:
+    # every way an entry is put into the version cache: cache[k] = v, cache.update({k: v}), cache.__setitem__(k, v)
+    puts = []   # (statement, key expression, value expression)
+    for s_ in fa.stmts((ast.Assign, ast.Expr)):
+        if not fa.nodes(s_):
+            continue
         at_ = fa.nodes(s_)[0]
-        v = fa.expand(s_.value, at_)
+        if isinstance(s_, ast.Assign):
+            for t in s_.targets:
+                if isinstance(t, ast.Subscript) and fa.xnorm(t.value, at_) == CACHE:
+                    puts.append((s_, t.slice if len(s_.targets) == 1 else None, s_.value))
+        elif isinstance(s_.value, ast.Call) and A.call_recv(s_.value) is not None and fa.xnorm(A.call_recv(s_.value), at_) == CACHE:
+            c_ = s_.value
+            if A.call_attr(c_) == "__setitem__" and len(c_.args) == 2:
+                puts.append((s_, c_.args[0], c_.args[1]))
+            elif A.call_attr(c_) == "update" and len(c_.args) == 1 and not c_.keywords:
+                d_ = fa.expand(c_.args[0], at_)
+                if isinstance(d_, ast.Dict) and len(d_.keys) == 1 and d_.keys[0] is not None:
+                    puts.append((s_, d_.keys[0], d_.values[0]))
+                else:
+                    puts.append((s_, None, None))
+            elif A.call_attr(c_) in ("update", "setdefault"):
+                puts.append((s_, None, None))
+    stores = [p_[0] for p_ in puts]
+    ok_c = bool(stores)
+    for (s_, key_, val_) in puts:
+        at_ = fa.nodes(s_)[0]
+        v = fa.expand(val_, at_) if val_ is not None else None
         flds = nt_fields(v) if isinstance(v, ast.Call) else None
         if flds is None and isinstance(v, ast.Call) and not v.args:
             flds = []  # all fields are named at the call: their order does not matter
-        okv = flds is not None and len(s_.targets) == 1
+        okv = flds is not None and key_ is not None
         if okv:
             bound = dict(zip(flds, v.args))
             bound.update({k.arg: k.value for k in v.keywords})
-            okv = gen_field in bound and A.norm(bound[gen_field]) == GEN \
+            okv = gen_field in bound and fa.xnorm(bound[gen_field], at_) == GEN \
                 and any(f_ != gen_field and fa.xnorm(e_, at_) == "self._recompute_version()" for f_, e_ in bound.items()) \
-                and fa.xnorm(s_.targets[0].slice, at_) == "self.qualified_name_without_version"
+                and fa.xnorm(key_, at_) == "self.qualified_name_without_version"
         ok_c = ok_c and okv
     sn = set(fa.nodes_all(stores))
     for (pth, lits) in paths:
@@ -2542,6 +2637,25 @@ def check_bindings(ck, R):
 _NARROWING_CALLS = {"len", "type", "bool", "callable", "isinstance", "issubclass", "hasattr", "str", "repr"}
 
 
+def _literal_sites(fa):
+    """literal text -> (expression, CFG node) for every expression of the function that can become a literal of a path"""
+    out = {}
+    for st in fa.stmts():
+        ns = fa.nodes(st)
+        if not ns:
+            continue
+        roots = [st.test] if isinstance(st, (ast.If, ast.While)) else [st.iter] if isinstance(st, (ast.For, ast.AsyncFor)) else \
+            [] if isinstance(st, (ast.Try, ast.With, ast.FunctionDef, ast.AsyncFunctionDef, ast.ClassDef)) else [st]
+        for rt in roots:
+            for x in A.walk_local(rt):
+                if isinstance(x, (ast.Compare, ast.Call, ast.Name, ast.Attribute, ast.Subscript)) and not isinstance(getattr(x, "ctx", None), (ast.Store, ast.Del)):
+                    try:
+                        out.setdefault(fa._literal(x, ns[0], True)[0], (x, ns[0]))
+                    except AnalysisError:
+                        pass
+    return out
+
+
 def _access_paths(fa, e, at, _seen=None, depth=12):
     """How the fresh resolution of a rule's symbol (`self.resolver()` / `self.ref_resolver()`) and the state the rule captured
     (`self.<field>`) reach the value of `e`: a set of (root, path, frozen) with root 'fresh' or 'cap:<field>' and path the
@@ -2648,21 +2762,7 @@ def check_did_change(ck, R):
         # tests taken on it (locals expanded, negations / nesting / guard clauses / result flags normalised away) and the
         # value returned at its end - a constant, or an expression split into the ways it can come out false.
 
-        # literal text -> (expression, CFG node) for every expression of the function that can become a literal
-        where_lit = {}
-        for st in fa.stmts():
-            ns = fa.nodes(st)
-            if not ns:
-                continue
-            roots = [st.test] if isinstance(st, (ast.If, ast.While)) else [st.iter] if isinstance(st, (ast.For, ast.AsyncFor)) else \
-                [] if isinstance(st, (ast.Try, ast.With, ast.FunctionDef, ast.AsyncFunctionDef, ast.ClassDef)) else [st]
-            for rt in roots:
-                for x in A.walk_local(rt):
-                    if isinstance(x, (ast.Compare, ast.Call, ast.Name, ast.Attribute, ast.Subscript)) and not isinstance(getattr(x, "ctx", None), (ast.Store, ast.Del)):
-                        try:
-                            where_lit.setdefault(fa._literal(x, ns[0], True)[0], (x, ns[0]))
-                        except AnalysisError:
-                            pass
+        where_lit = _literal_sites(fa)
 
         def strategy_scan(x, at):
             """does expression `x` ask the rule strategies (HashRule.all_rules) whether they can hash the fresh object?"""
@@ -2826,7 +2926,7 @@ def check_every_symbol_watched(ck, R):
     (result.add / collect_transitive_dependencies), except the exits for a function without globals and for
     black-listed objects."""
     v = FA(ck, CH + ".HashRule._visit_dependency")
-    adds = v.nodes_all([c for c in v.calls("add") if A.norm(A.call_recv(c)) == "result"] + v.calls("collect_transitive_dependencies"))
+    adds = v.nodes_all([c for (c, _el) in _set_additions(v, "result")] + v.calls("collect_transitive_dependencies"))
     # exits that are allowed to add nothing: `if not hasattr(src_fn, '__globals__'): return`
     allowed = [n.id for n in v.cfg.nodes if n.kind == "stmt" and isinstance(n.ast, ast.Return) and v.enclosing(n.ast, ast.If) is not None
                and "__globals__" in A.norm(v.enclosing(n.ast, ast.If).test)]
@@ -2849,7 +2949,7 @@ def check_every_symbol_watched(ck, R):
         n += 1
         fa = FA(ck, m)
         res = fa.fi.params[1] if len(fa.fi.params) > 1 else "result"
-        adds = fa.nodes_all([c for c in fa.calls("add") if A.norm(A.call_recv(c)) == res])
+        adds = fa.nodes_all([c for (c, _el) in _set_additions(fa, res)])
         # the way out on which the rule found itself accounted for already (`self in result`) needs no addition, whatever
         # the shape of the test (guard clause with an early return, or the rest of the body nested under its negation)
         from .cache_model import branch_filter
